@@ -87,10 +87,10 @@ void *lua_newuserdata(lua_State *L, size_t sz) {
 int lua_setmetatable(lua_State *L, int objindex) {
     /* pops a table (whose name travels in .str) and sets it as the metatable of the value at objindex */
     sval *t = stub_at(L, -1);
+    sval *o = stub_at(L, objindex);      /* resolved before the table is popped */
     char name[64] = "";
     if (t) strncpy(name, t->str, sizeof name - 1);
     L->top--;
-    sval *o = stub_at(L, objindex);
     if (o) strncpy(o->meta, name, sizeof o->meta - 1);
     return 1;
 }
